@@ -178,4 +178,33 @@ def pySum : List Int → Int
   | [] => 0
   | x :: xs => x + pySum xs
 
+/-! ### Parent-less set algebra (kernels with result type `LocOut`) -/
+
+/-- A returned location with the object constructions the translator does not compile kept SYMBOLIC (constructor cut):
+    `single s` = a SingleInterval value (constructed by `mkSI`, or `self`); `empty` = `EmptyLocation()`;
+    `compound starts ends strand opt` = the ARGUMENTS of `CompoundInterval(starts, ends, strand, …)`;
+    `fromBlocks bs opt` = the argument of `CompoundInterval._from_single_intervals_no_validation(bs)`;
+    `opt = true` when `.optimize_blocks()` is applied to the constructed object. -/
+inductive LocOut where
+  | single (s : SI)
+  | empty
+  | compound (starts ends : List Int) (strand : Strand) (optimize : Bool)
+  | fromBlocks (bs : List SI) (optimize : Bool)
+  deriving DecidableEq, Repr
+
+/-- `len(x)` for `x` a SingleInterval or `EmptyLocation()` (`_EmptyLocation.length` is 0) -/
+def optSILen : Option SI → Int
+  | none => 0
+  | some s => s.«end» - s.start
+
+/-- `min(xs)` of a list of ints: ValueError on an empty list -/
+def pyMinList : List Int → PyR Int
+  | [] => .error .ValueError
+  | x :: xs => .ok (xs.foldl min x)
+
+/-- `max(xs)` -/
+def pyMaxList : List Int → PyR Int
+  | [] => .error .ValueError
+  | x :: xs => .ok (xs.foldl max x)
+
 end BioCantor.GenP
